@@ -4,8 +4,10 @@
 // stored order, options) becomes an *osm.Change and an osm.HistoryDatasource; the returned diff or
 // error is written back in the abstract vocabulary.  No expected values, no property logic.
 //
-// Symbol maps: abstract id i <-> concrete id base+i (base from VERIF_IDBASE, "?" = -1);
-// mark m <-> ChangesetID markBase+m; versions and visible flags are themselves.
+// Symbol maps: abstract id i <-> concrete id through the id table named by the case (idTables below;
+// table "base" is base+i with base from VERIF_IDBASE; a concrete id outside the table reads back as -1);
+// mark m <-> ChangesetID markBase+m; versions and visible flags are themselves; option settings are
+// rendered one to one into annotate.Option values.
 package main
 
 import (
@@ -15,6 +17,7 @@ import (
 	"fmt"
 	"os"
 	"strconv"
+	"time"
 
 	"github.com/paulmach/osm"
 	"github.com/paulmach/osm/annotate"
@@ -41,9 +44,18 @@ type Hist struct {
 	Vs   []El   `json:"vs"`
 }
 
+type Opt struct {
+	Inc  string `json:"inc"`  // IgnoreInconsistency: "absent", "off", "on"
+	Thr  bool   `json:"thr"`  // Threshold(d) present
+	Cf   string `json:"cf"`   // ChildFilter: "absent", "all", "none"
+	Ignx bool   `json:"ignx"` // an explicit IgnoreMissingChildren(false) in front
+}
+
 type Case struct {
-	Ign  bool `json:"ign"`
-	Nile bool `json:"nile"`
+	Ign  bool   `json:"ign"`
+	Nile bool   `json:"nile"`
+	Opt  Opt    `json:"opt"`
+	Idp  string `json:"idp"`
 	Ch   struct {
 		Create Cells `json:"create"`
 		Modify Cells `json:"modify"`
@@ -86,13 +98,53 @@ var (
 	markBase int64 = 700000
 )
 
-func cid(a int64) int64 { return idBase + a }
-func aid(c int64) int64 {
-	if a := c - idBase; a >= 1 && a <= 1000 {
-		return a
+// id symbol tables: abstract id (1, 2, 3) -> concrete id
+var idTables = map[string][]int64{
+	"zero":  {0, 5, 9},
+	"zero2": {5, 0, 9},
+	"zero3": {5, 9, 0},
+	"big":   {1<<40 - 1, 0, 1 << 39},
+	"neg":   {-1, 0, -1000000},
+}
+
+type idmap struct{ table []int64 }
+
+func newIDMap(name string) idmap {
+	if name == "base" || name == "" {
+		return idmap{}
+	}
+	t, ok := idTables[name]
+	if !ok {
+		vio.Must(fmt.Errorf("unknown id table %q", name), "case")
+	}
+	return idmap{t}
+}
+
+func (m idmap) cid(a int64) int64 {
+	if m.table == nil {
+		return idBase + a
+	}
+	if a < 1 || int(a) > len(m.table) {
+		vio.Must(fmt.Errorf("abstract id %d outside the id table", a), "case")
+	}
+	return m.table[a-1]
+}
+
+func (m idmap) aid(c int64) int64 {
+	if m.table == nil {
+		if a := c - idBase; a >= 1 && a <= 1000 {
+			return a
+		}
+		return -1
+	}
+	for i, v := range m.table {
+		if v == c {
+			return int64(i + 1)
+		}
 	}
 	return -1
 }
+
 func amark(c osm.ChangesetID) int64 {
 	if a := int64(c) - markBase; a >= 1 && a <= 100000 {
 		return a
@@ -130,30 +182,30 @@ func (d *failingDS) RelationHistory(ctx context.Context, id osm.RelationID) (osm
 	return d.HistoryDatasource.RelationHistory(ctx, id)
 }
 
-func renderOSM(c Cells, nile bool) *osm.OSM {
+func renderOSM(m idmap, c Cells, nile bool) *osm.OSM {
 	if nile && len(c.Node)+len(c.Way)+len(c.Relation) == 0 {
 		return nil
 	}
 	o := &osm.OSM{}
 	for _, e := range c.Node {
-		o.Nodes = append(o.Nodes, &osm.Node{ID: osm.NodeID(cid(e.ID)), Version: e.V, Visible: e.Vis, ChangesetID: osm.ChangesetID(markBase + e.M)})
+		o.Nodes = append(o.Nodes, &osm.Node{ID: osm.NodeID(m.cid(e.ID)), Version: e.V, Visible: e.Vis, ChangesetID: osm.ChangesetID(markBase + e.M)})
 	}
 	for _, e := range c.Way {
-		o.Ways = append(o.Ways, &osm.Way{ID: osm.WayID(cid(e.ID)), Version: e.V, Visible: e.Vis, ChangesetID: osm.ChangesetID(markBase + e.M)})
+		o.Ways = append(o.Ways, &osm.Way{ID: osm.WayID(m.cid(e.ID)), Version: e.V, Visible: e.Vis, ChangesetID: osm.ChangesetID(markBase + e.M)})
 	}
 	for _, e := range c.Relation {
-		o.Relations = append(o.Relations, &osm.Relation{ID: osm.RelationID(cid(e.ID)), Version: e.V, Visible: e.Vis, ChangesetID: osm.ChangesetID(markBase + e.M)})
+		o.Relations = append(o.Relations, &osm.Relation{ID: osm.RelationID(m.cid(e.ID)), Version: e.V, Visible: e.Vis, ChangesetID: osm.ChangesetID(markBase + e.M)})
 	}
 	return o
 }
 
-func renderDS(hs []Hist) osm.HistoryDatasourcer {
+func renderDS(m idmap, hs []Hist) osm.HistoryDatasourcer {
 	ds := &osm.HistoryDatasource{}
 	fail := map[osm.FeatureID]bool{}
 	for _, h := range hs {
 		switch h.K {
 		case "node":
-			id := osm.NodeID(cid(h.ID))
+			id := osm.NodeID(m.cid(h.ID))
 			if h.Fail {
 				fail[id.FeatureID()] = true
 				continue
@@ -167,7 +219,7 @@ func renderDS(hs []Hist) osm.HistoryDatasourcer {
 			}
 			ds.Nodes[id] = l
 		case "way":
-			id := osm.WayID(cid(h.ID))
+			id := osm.WayID(m.cid(h.ID))
 			if h.Fail {
 				fail[id.FeatureID()] = true
 				continue
@@ -181,7 +233,7 @@ func renderDS(hs []Hist) osm.HistoryDatasourcer {
 			}
 			ds.Ways[id] = l
 		case "relation":
-			id := osm.RelationID(cid(h.ID))
+			id := osm.RelationID(m.cid(h.ID))
 			if h.Fail {
 				fail[id.FeatureID()] = true
 				continue
@@ -205,24 +257,24 @@ func renderDS(hs []Hist) osm.HistoryDatasourcer {
 }
 
 // recordOSM lists the elements of one part of an action: nodes, ways, relations in that order.
-func recordOSM(o *osm.OSM) []OutEl {
+func recordOSM(m idmap, o *osm.OSM) []OutEl {
 	out := []OutEl{}
 	if o == nil {
 		return out
 	}
 	for _, n := range o.Nodes {
-		out = append(out, OutEl{"node", aid(int64(n.ID)), n.Version, n.Visible, amark(n.ChangesetID)})
+		out = append(out, OutEl{"node", m.aid(int64(n.ID)), n.Version, n.Visible, amark(n.ChangesetID)})
 	}
 	for _, w := range o.Ways {
-		out = append(out, OutEl{"way", aid(int64(w.ID)), w.Version, w.Visible, amark(w.ChangesetID)})
+		out = append(out, OutEl{"way", m.aid(int64(w.ID)), w.Version, w.Visible, amark(w.ChangesetID)})
 	}
 	for _, r := range o.Relations {
-		out = append(out, OutEl{"relation", aid(int64(r.ID)), r.Version, r.Visible, amark(r.ChangesetID)})
+		out = append(out, OutEl{"relation", m.aid(int64(r.ID)), r.Version, r.Visible, amark(r.ChangesetID)})
 	}
 	return out
 }
 
-func recordErr(err error, g *Got) {
+func recordErr(m idmap, err error, g *Got) {
 	var fid osm.FeatureID
 	switch e := err.(type) {
 	case *annotate.NoVisibleChildError:
@@ -237,7 +289,7 @@ func recordErr(err error, g *Got) {
 		return
 	}
 	g.Ek = string(fid.Type())
-	g.Eid = aid(fid.Ref())
+	g.Eid = m.aid(fid.Ref())
 }
 
 func run(c Case) (g Got) {
@@ -247,26 +299,43 @@ func run(c Case) (g Got) {
 			g = Got{Err: "panic", Actions: []Act{}, NoDiff: true}
 		}
 	}()
+	m := newIDMap(c.Idp)
 	change := &osm.Change{
-		Create: renderOSM(c.Ch.Create, c.Nile),
-		Modify: renderOSM(c.Ch.Modify, c.Nile),
-		Delete: renderOSM(c.Ch.Delete, c.Nile),
+		Create: renderOSM(m, c.Ch.Create, c.Nile),
+		Modify: renderOSM(m, c.Ch.Modify, c.Nile),
+		Delete: renderOSM(m, c.Ch.Delete, c.Nile),
 	}
-	ds := renderDS(c.Hist)
+	ds := renderDS(m, c.Hist)
 	var opts []annotate.Option
+	if c.Opt.Ignx {
+		opts = append(opts, annotate.IgnoreMissingChildren(false))
+	}
+	switch c.Opt.Inc {
+	case "on":
+		opts = append(opts, annotate.IgnoreInconsistency(true))
+	case "off":
+		opts = append(opts, annotate.IgnoreInconsistency(false))
+	}
+	if c.Opt.Thr {
+		opts = append(opts, annotate.Threshold(45*time.Minute))
+	}
+	switch c.Opt.Cf {
+	case "all":
+		opts = append(opts, annotate.ChildFilter(func(osm.FeatureID) bool { return true }))
+	case "none":
+		opts = append(opts, annotate.ChildFilter(func(osm.FeatureID) bool { return false }))
+	}
 	if c.Ign {
 		opts = append(opts, annotate.IgnoreMissingChildren(true))
-	} else if c.Nile {
-		opts = append(opts, annotate.IgnoreMissingChildren(false)) // explicit "off" (otherwise: option absent)
 	}
 	diff, err := annotate.Change(context.Background(), change, ds, opts...)
 	if err != nil {
-		recordErr(err, &g)
+		recordErr(m, err, &g)
 	}
 	g.NoDiff = diff == nil
 	if diff != nil {
 		for _, a := range diff.Actions {
-			g.Actions = append(g.Actions, Act{T: string(a.Type), OSM: recordOSM(a.OSM), Old: recordOSM(a.Old), New: recordOSM(a.New)})
+			g.Actions = append(g.Actions, Act{T: string(a.Type), OSM: recordOSM(m, a.OSM), Old: recordOSM(m, a.Old), New: recordOSM(m, a.New)})
 		}
 	}
 	return g
